@@ -297,6 +297,17 @@ def run_case(case, res):
                 exp = "\n".join((f"{n.kind} → {n.data}" if typed else repr(n.data)) for n in rendered)
                 if got != exp:
                     bad.append(f"default repr: got {got!r}, expected {exp!r}")
+            # print() writes format() plus a newline to the given file
+            if start == -1:
+                import io as _io
+
+                for kwp in ({}, {"style": "ascii32", "title": "T"}, {"style": "list", "join": ", "}):
+                    fp = _io.StringIO()
+                    r = attempt(lambda: t.print(file=fp, repr="<{node.data_id}>" if eq else "<{node.data}>", **kwp))
+                    e = attempt(lambda: t.format(repr="<{node.data_id}>" if eq else "<{node.data}>", **kwp))
+                    if isinstance(r, tuple) or fp.getvalue() != e + "\n":
+                        bad.append(f"print({kwp}) wrote {fp.getvalue()!r}, format gives {e!r}")
+                    res.count("print_calls")
             # invalid style
             g = attempt(lambda: t.format(style="nosuchstyle"))
             if not (isinstance(g, tuple) and g[1] == "ValueError"):
